@@ -90,6 +90,31 @@ type MergeCase struct {
 	SDLs     []string `json:"sdls"`
 	Mutation string   `json:"mutation,omitempty"`
 	Mutated  int      `json:"mutated_service,omitempty"`
+	// GatewayFields: query fields the gateway is given of its own (WithQueryFields); the gateway's own additions to
+	// the merged schema are then Node, Query.node and these
+	GatewayFields []GwField `json:"gateway_fields,omitempty"`
+}
+
+// GwField describes one gateway query field: `name(token: String!)?: [T]?`
+type GwField struct {
+	Name string `json:"name"`
+	Type string `json:"type"`
+	List bool   `json:"list,omitempty"`
+	Arg  bool   `json:"arg,omitempty"`
+}
+
+func (g GwField) astType() *ast.Type {
+	if g.List {
+		return ast.ListType(ast.NamedType(g.Type, nil), nil)
+	}
+	return ast.NamedType(g.Type, nil)
+}
+
+func (g GwField) astArgs() ast.ArgumentDefinitionList {
+	if g.Arg {
+		return ast.ArgumentDefinitionList{{Name: "token", Type: ast.NonNullNamedType("String", nil)}}
+	}
+	return nil
 }
 
 // closure adds what the chosen definitions refer to
